@@ -14,6 +14,7 @@ package messageevent
 import (
 	"context"
 	"encoding/json"
+	"errors"
 	"fmt"
 	"os"
 	"strings"
@@ -130,6 +131,21 @@ func reply(r metadb.MessageEventAppendResult) map[string]any {
 	return map[string]any{"key": r.EventKey, "seq": r.MsgEventSeq, "status": r.Status}
 }
 
+// refused marks an error by which the reducer itself rejects a call (as opposed to
+// trouble of the store underneath): the specification accepts every call the harness
+// makes, so a refusal is a disagreement about the reply, not infrastructure trouble.
+type refused struct{ err error }
+
+func (r refused) Error() string { return "refused: " + r.err.Error() }
+
+func classify(what string, err error) error {
+	if errors.Is(err, metadb.ErrStaleMeta) || errors.Is(err, metadb.ErrInvalidArgument) ||
+		errors.Is(err, metadb.ErrNotFound) || errors.Is(err, metadb.ErrCorruptValue) {
+		return refused{fmt.Errorf("%s: %w", what, err)}
+	}
+	return fmt.Errorf("%s: %w", what, err)
+}
+
 // apply performs the call described by ev and returns the observed reply.
 func (s *meSUT) apply(ev map[string]any) (map[string]any, error) {
 	ctx := context.Background()
@@ -138,7 +154,7 @@ func (s *meSUT) apply(ev map[string]any) (map[string]any, error) {
 	case "Append":
 		r, err := s.db.ForHashSlot(s.slot(m)).AppendMessageEvent(ctx, s.event(m, kit.Map(ev, "e")))
 		if err != nil {
-			return nil, fmt.Errorf("AppendMessageEvent: %w", err)
+			return nil, classify("AppendMessageEvent", err)
 		}
 		return reply(r), nil
 	case "AppendBatch":
@@ -148,12 +164,12 @@ func (s *meSUT) apply(ev map[string]any) (map[string]any, error) {
 		for _, x := range kit.List(ev, "es") {
 			r, err := wb.AppendMessageEvent(s.slot(m), s.event(m, x.(map[string]any)))
 			if err != nil {
-				return nil, fmt.Errorf("WriteBatch.AppendMessageEvent: %w", err)
+				return nil, classify("WriteBatch.AppendMessageEvent", err)
 			}
 			rs = append(rs, reply(r))
 		}
 		if err := wb.Commit(); err != nil {
-			return nil, fmt.Errorf("WriteBatch.Commit: %w", err)
+			return nil, classify("WriteBatch.Commit", err)
 		}
 		return map[string]any{"rs": rs}, nil
 	}
@@ -262,6 +278,12 @@ func TestVerifMessageEvent(t *testing.T) {
 			if si > 0 {
 				res, err := sut.apply(st.Ev)
 				rep.Cover(kit.Str(st.Ev, "a"))
+				var ref refused
+				if errors.As(err, &ref) {
+					rep.Violate("C40", "reply", fmt.Sprintf("step %d %s: spec=%s impl=%v", si, kit.JSON(kit.CloneEv(st.Ev)), kit.JSON(st.Ev["res"]), ref),
+						map[string]any{"behaviour": b, "step": si, "observed": ref.Error()})
+					break
+				}
 				if err != nil {
 					rep.Infra("behaviour %d step %d %s: %v", bi, si, kit.JSON(kit.CloneEv(st.Ev)), err)
 					break
@@ -354,6 +376,12 @@ func TestVerifMessageEvent(t *testing.T) {
 				ev = kit.Ev("Append", "m", m, "e", drawEvent())
 			}
 			res, err := sut.apply(ev)
+			var ref refused
+			if errors.As(err, &ref) {
+				rep.Violate("C40", "reply", fmt.Sprintf("%s: the reducer refused a call the specification accepts: %v", kit.JSON(ev), ref),
+					map[string]any{"events": append(hist, ev)})
+				break
+			}
 			if err != nil {
 				rep.Infra("driver: %s: %v", kit.JSON(ev), err)
 				break
